@@ -106,6 +106,17 @@ fn real_main(args: Vec<String>) {
             with_zoo_config!(cfg.as_str(), literal_replay(cfg.as_str(), it))
         }
         ("replay", "bigint") => { let nl: usize = cfg.parse().expect("--cfg <limbs>"); with_limbs!(nl, replay_bigint()) }
+        ("record", "h2c") => {
+            let seed: u64 = arg(&args, "--seed").and_then(|s| s.parse().ok()).unwrap_or(1);
+            let n: usize = arg(&args, "--n").and_then(|s| s.parse().ok()).unwrap_or(100);
+            let out = arg(&args, "--out").expect("--out");
+            let mut f = std::io::BufWriter::new(std::fs::File::create(out).expect("create trace file"));
+            match cfg.as_str() {
+                "fields" => h2c::record_field_hashing(seed, n, &mut f),
+                "bls12_381_g1" => h2c::record_wb::<ark_test_curves::bls12_381::g1::Config>("bls12_381_g1", seed, n, &mut f),
+                "bls12_381_g2" => h2c::record_wb::<ark_test_curves::bls12_381::g2::Config>("bls12_381_g2", seed, n, &mut f),
+                other => panic!("unknown h2c configuration {other}") }
+        }
         ("record", "pairing") => {
             let seed: u64 = arg(&args, "--seed").and_then(|s| s.parse().ok()).unwrap_or(1);
             let n: usize = arg(&args, "--n").and_then(|s| s.parse().ok()).unwrap_or(200);
